@@ -51,7 +51,7 @@ class Program(object):
         return statements
 
     @classmethod
-    def process_mnemonics(cls, statements):
+    def process_mnemonics(cls, statements, including=()):
         """
         Given a list of statements, processes the mnemonics on each statement, and
         assigns each statement an Instruction object. If the statement is the
@@ -59,18 +59,23 @@ class Program(object):
         associated include file.
 
         :param statements: the list of statements to process
+        :param including: the names of the include files currently being expanded
         :return: a list of processed statements
         """
         processed_statements = []
         for statement in statements:
             include_filename = statement.get_include_filename()
             if include_filename:
+                if include_filename in including:
+                    raise TranslationError("[{}] includes itself".format(include_filename), statement)
                 include_source = SourceFile(include_filename)
                 try:
                     include_source.read_file()
                 except OSError as error:
                     raise TranslationError(str(error), statement)
-                include = cls.process_mnemonics(cls.parse(include_source.get_buffer()))
+                include = cls.process_mnemonics(
+                    cls.parse(include_source.get_buffer()), including + (include_filename,)
+                )
                 processed_statements.extend(include)
             else:
                 processed_statements.extend([statement])
